@@ -245,7 +245,32 @@ def ak_execute(case, stats):
     )
 
 
+def large_enumerate(tier, shard, nshards):
+    def gen():
+        for size in (65536 + 9, 131072 + 9, 300000):
+            for needle in (b"\x00\x01\x00\x01\x00\x02\x00", b"\xff\xff\xff", b"Z"):
+                yield {"size": size, "needle": needle}
+
+    return shard_iter(gen(), shard, nshards)
+
+
+def large_execute(case, stats):
+    """Needles planted around 64 KiB / 128 KiB and near the end of large files (default read buffer)."""
+    from dissect.cobaltstrike import utils
+
+    n = case["needle"]
+    hay = bytearray(b"\x41" * case["size"])
+    for pos in (0, 8190, 65530, 65536 - len(n), 65536, 131070, case["size"] - len(n)):
+        if 0 <= pos and pos + len(n) <= len(hay):
+            hay[pos : pos + len(n)] = n
+    hay = bytes(hay)
+    for start, limit in ((0, None), (65531, None), (0, 70000), (100, 1024)):
+        check_scan(utils, hay, n, None, start, limit)
+    stats.note(case, True, classes=["large_haystack"])
+
+
 SUBS = [
+    Sub("scan_large", large_execute, enumerate=large_enumerate, exhaustive=True),
     Sub("scan_exhaustive", scan_enum_execute, enumerate=scan_enumerate, exhaustive=True),
     Sub("scan_random", scan_execute, strategy=scan_strategy, examples={"quick": 3200, "thorough": 64000}),
     Sub("artifactkit", ak_execute, strategy=ak_strategy, examples={"quick": 3200, "thorough": 64000}),
